@@ -98,3 +98,31 @@ Theorem C06_monitor_sound : forall w acts,
   Inv w -> no_teardown acts -> WorldMon.all_steps WorldMon.trial_step (WorldC.project w) (MonSound.msteps w acts) = true.
 Proof. exact MonSound.trial_steps_model. Qed.
 Print Assumptions C06_monitor_sound.
+
+(* MetricsUnavailable is justified when it is reported: over every history, a stored trial becomes MetricsUnavailable only by
+   the trial reconcile in progress for that very trial, and only if the metrics DB held no objective value for it when that
+   reconcile began (metrics arrive progressively: the value may well arrive later; the verdict then stays, C06_permanent).
+   [mu_walk] is the monitor evaluated on the implementation's projected states; here it is shown for the model's own. *)
+Theorem C06_metrics_unavailable_justified : forall c acts,
+  valid_cfg c -> no_teardown acts ->
+  WorldMon.mu_walk None (WorldC.project (init c)) (MonSound.msteps (init c) acts) = true.
+Proof. exact MonSound.mu_monitor_sound. Qed.
+Print Assumptions C06_metrics_unavailable_justified.
+
+(* the same from any state that satisfies the invariants, with the ghost snapshot of the trial reconcile in progress *)
+Theorem C06_monitor_mu_sound : forall snap w acts,
+  Inv w -> WorldMu.MuInv snap w -> no_teardown acts -> WorldMon.mu_walk snap (WorldC.project w) (MonSound.msteps w acts) = true.
+Proof. exact MonSound.mu_walk_model. Qed.
+Print Assumptions C06_monitor_mu_sound.
+
+(* Non-vacuity: a history of the model in which the report without objective value, the MetricsUnavailable verdict and the late
+   objective value all occur: the premises of the theorem hold and its monitor clause is exercised (the trial ends
+   MetricsUnavailable, not Succeeded, although the job succeeded and the DB holds the objective value 5 at the end). *)
+From KV Require Proofs.WorldMuEx.
+Example C06_metrics_unavailable_justified_nonvacuous :
+  valid_cfg WorldMuEx.mu_cfg /\ no_teardown WorldMuEx.mu_acts /\
+  (let w := run WorldMuEx.mu_cfg WorldMuEx.mu_acts in
+   exists t, find_trial 7%nat (w_trials w) = Some t /\ t_is t TMetricsUnavailable = true /\ t_is t TSucceeded = false /\
+             db_get 7%nat (w_db w) = Some (Some 5%Z) /\ find_job 7%nat (w_jobs w) = Some {| j_name := 7%nat; j_phase := JSucc |}).
+Proof. exact (conj WorldMuEx.mu_valid (conj WorldMuEx.mu_no_teardown WorldMuEx.mu_outcome)). Qed.
+Print Assumptions C06_metrics_unavailable_justified_nonvacuous.
